@@ -402,6 +402,7 @@ def clamp_rule(chk, db):
 META_EXTRA = "SLOTS-W / SLOTS-U (grown characters written; range writes below the size slot); POST (size postconditions); NULFREE (no NUL-sensitive routine reachable from counted operations, overloads selected by argument kind); EXIT (early exits of the searches vs the specification's feasibility predicate); CLAMP (length clamps measure one object); PARAM."
 META = (META[0] + " " + META_EXTRA, META[1])
 META = (META[0] + ' SIB; IT4i (index-form downward scans reach index 0); RESUME (pattern searches move their candidate by one); CLAMP by viewed object.', META[1])
+META = (META[0] + ' CLAMP direction; ERASECNT.', META[1])
 
 
 def run(chk, tier):
@@ -435,7 +436,7 @@ def run(chk, tier):
     # NULFREE: counted operations never reach a routine that stops at a null character (embedded nulls are characters)
     c08.nulfree_rule(chk, db, STRING, 100)
     nrel = rel.check(chk, db, ["_string/basic_inplace_string.hpp"])
-    if nrel < 16:
+    if chk.rule_instances.get("REL", 0) < 16:      # operators found (an unmodelled body is UNKNOWN, not a lost subject)
         chk.analysis_broken("REL: only %d string relational operators modelled (floor 16)" % nrel)
     sig.check(chk, db, STRING, "std::basic_string", min_matched=100)
     ninst = winst.run_matrix(chk, "W-INST", "c04_inst", [x for x in winst.string_matrix(tier == "quick") if "inplace_string" in x[0]],
